@@ -28,7 +28,8 @@ for C in $CHECKS; do
   grep "^\[check\]" /tmp/trymut_$C.log | tail -4
   RES="$RES $C:rc=$RC:viol=$V:nofail=$NF"
 done
-git -C /repo checkout -- . 
+git -C /repo checkout -- .
+/verif/tools/regen.sh
 git -C /repo status --short
 N=$(ls -d /verif/seeded/$P* 2>/dev/null | wc -l); D=/verif/seeded/$P; [ $N -gt 0 ] && D=/verif/seeded/$P-$((N+1))
 mkdir -p $D; cp "$WT/seed/patch.diff" $D/; cp "$WT"/seed/demo_test.go $D/ 2>/dev/null; cp "$WT/seed/meta.json" $D/meta.agent.json
